@@ -4,6 +4,7 @@ set -e
 cd "$(dirname "$0")/.."
 . bin/env.sh
 bin/gen_gomod.sh
+(cd mc && "$VERIF_GO" run ./cmd/gendb dbwrap/wrap_gen.go)
 mkdir -p .build evidence
 (cd mc && "$VERIF_GO" build -tags verif -o ../.build/vcheck ./cmd/vcheck)
 echo "setup ok: $(.build/vcheck 2>&1 | head -1)"
